@@ -15,6 +15,7 @@ package main
 // case line:  <scenario> <loglevel> <fakemode> <sourcepw-hex> <targetpw-hex>
 // fakemode: ok | autherr (AUTH rejected) | mute (never answers) | tgtdown / srcdown (connection refused) | oklong (ok, 12 s) |
 //           tls (TLS on in the tool, plain-text peers: handshake fails) | tlsdown (TLS on, peers down: dial fails) |
+//           resumecut (the target holds a checkpoint of the source, PSYNC is answered +CONTINUE, then the link is cut) |
 //           slave (every peer answers role:slave) | rst (every connection is reset right after the accept)
 
 import (
@@ -56,7 +57,7 @@ func init() {
 
 var c19Scenarios = []string{"echo", "sync", "synccluster", "syncresume", "synctgtcluster", "restore", "rump", "dump", "decode", "supervise"}
 var c19Levels = []string{"none", "error", "warn", "info", "debug"}
-var c19Fakes = []string{"ok", "autherr", "mute", "tgtdown", "srcdown", "tls", "tlsdown", "slave", "rst"}
+var c19Fakes = []string{"ok", "autherr", "mute", "tgtdown", "srcdown", "tls", "tlsdown", "slave", "rst", "resumecut"}
 
 const c19Alnum = "ABCDEFGHIJKLMNOPQRSTUVWXYZabcdefghijklmnopqrstuvwxyz0123456789"
 
@@ -108,6 +109,9 @@ func genC19(g *gen) {
 		emit("restore", "debug", "rst", g.r.Intn(5))
 		emit("rump", "info", "rst", g.r.Intn(5))
 	}
+	// a resumed start (checkpoint on the target, PSYNC answered +CONTINUE) whose source link then breaks, again and again
+	emit("syncresume", "debug", "resumecut", g.r.Intn(5))
+	emit("syncresume", "error", "resumecut", g.r.Intn(5))
 	// the handshake helper on connections failing at each point
 	for _, fm := range []string{"wfail", "wshort", "rfail", "autherr", "garbage", "ok"} {
 		emit("authconn", []string{"debug", "info", "error"}[g.r.Intn(3)], fm, g.r.Intn(5))
@@ -281,6 +285,7 @@ type c19Fake struct {
 	mode string
 	rdb  []byte
 	ln   net.Listener
+	peer string // (resumecut) the address of the source whose checkpoint this target holds
 }
 
 func c19RDB() []byte {
@@ -437,6 +442,12 @@ func (f *c19Fake) serve(c net.Conn) {
 			}
 			reply = "+OK\r\n"
 		case "psync":
+			if f.mode == "resumecut" && len(cmd) > 1 && cmd[1] != "?" {
+				// a resumed start: the source continues the stream, then the link breaks (every time)
+				c.Write([]byte("+CONTINUE\r\n*1\r\n$4\r\nping\r\n"))
+				time.Sleep(300 * time.Millisecond)
+				return
+			}
 			reply = "+FULLRESYNC " + strings.Repeat("a1", 20) + " 1\r\n" + fmt.Sprintf("$%d\r\n", len(f.rdb)) + string(f.rdb) +
 				"*2\r\n$6\r\nselect\r\n$1\r\n0\r\n*3\r\n$3\r\nset\r\n$4\r\nkey3\r\n$2\r\nv3\r\n"
 		case "sync":
@@ -454,9 +465,20 @@ func (f *c19Fake) serve(c net.Conn) {
 			reply = "*2\r\n$1\r\n0\r\n*2\r\n$4\r\nkey1\r\n$4\r\nkey2\r\n"
 		case "dump":
 			reply = c19Bulk(string(append([]byte{0x00, 0x05, 'v', 'a', 'l', 'u', 'e', 0x07, 0x00}, make([]byte, 8)...)))
-		case "pttl", "dbsize", "exists", "del", "hset", "hdel", "pexpire":
+		case "exists":
 			reply = ":0\r\n"
-		case "hgetall", "exec", "keys":
+			if f.mode == "resumecut" && f.peer != "" {
+				reply = ":1\r\n" // the checkpoint of the source lives here
+			}
+		case "hgetall":
+			reply = "*0\r\n"
+			if f.mode == "resumecut" && f.peer != "" {
+				reply = "*6\r\n" + c19Bulk(f.peer+"-runid") + c19Bulk(strings.Repeat("b2", 20)) + c19Bulk(f.peer+"-offset") + c19Bulk("4242") +
+					c19Bulk(f.peer+"-version") + c19Bulk("1")
+			}
+		case "pttl", "dbsize", "del", "hset", "hdel", "pexpire":
+			reply = ":0\r\n"
+		case "exec", "keys":
 			reply = "*0\r\n"
 		case "ping":
 			reply = "+PONG\r\n"
@@ -501,6 +523,7 @@ func c19Child(f []string) {
 
 	src := c19StartFake(mode)
 	tgt := c19StartFake(mode)
+	tgt.peer = src.addr()
 	// peers that refuse the connection: the error paths of connecting with credentials
 	if mode == "tgtdown" {
 		tgt.ln.Close()
